@@ -107,6 +107,10 @@ def sources(tier, seed, ctx):
         srcs.append({'fn': 'square', 'n': n, 'mode': 'DEFAULT', 'big': False, 'gen': True, 'host': None})
     for n, big in ([(47, True), (50, False)] if tier == 'quick' else [(47, True), (48, False), (50, False), (53, True), (60, True)]):
         srcs.append({'fn': 'square', 'n': n, 'mode': 'POW2_M1', 'big': big, 'gen': True, 'host': None})
+    # a third of the little-endian calls do not pass big_endian at all (the documented default is little-endian)
+    for j, s_ in enumerate(srcs):
+        if s_.get('big') is False and j % 3 == 0:
+            s_['big'] = None
     ctx['gen_note'] = f'{len(srcs)} generator calls'
     return srcs
 
@@ -126,7 +130,7 @@ def record(src):
         try:
           with multrace.traced(events):      # the multiplier's own steps, for the weight ledger (drift only)
             if src['gen'] and not src.get('host'):
-                c = ar.generate_mul(n, m, type=ar.MulMode[mode], big_endian=big)
+                c = ar.generate_mul(n, m, type=ar.MulMode[mode], **A.bkw(big))
                 pre = {'g': {l: {'t': 'INPUT', 'o': []} for l in c.inputs}, 'ord': list(c.inputs), 'i': list(c.inputs), 'o': [], 'u': {}, 'b': {}}
                 a, b = list(c.inputs[:n]), list(c.inputs[n:])
                 res = list(c.outputs)
@@ -135,7 +139,7 @@ def record(src):
                 c, ops = A.make_host(src, n + m)
                 pre = project(c)
                 a, b = ops[:n], ops[n:]
-                res = _fn(ar, mode)(c, list(a), list(b), big_endian=big)
+                res = _fn(ar, mode)(c, list(a), list(b), **A.bkw(big))
                 mode_out = 'same'
           checks = [{'op': 'mul', 'a': A.le(a, big), 'b': A.le(b, big), 'out': A.le(res, big), 'outlen': outlen}]
           if mode in LEDGER_MODES and len(set(a) | set(b)) == n + m and n * m <= 1100:
@@ -153,8 +157,8 @@ def record(src):
             a, b = list(ops[:n]), list(ops[n:])
             a0, b0 = list(a), list(b)
             fn = _fn(ar, mode)
-            r1 = fn(c, a, a, big_endian=big)      # the SAME list object twice: a * a
-            r2 = fn(c, a, b, big_endian=big)      # the list is used again: a * b
+            r1 = fn(c, a, a, **A.bkw(big))      # the SAME list object twice: a * a
+            r2 = fn(c, a, b, **A.bkw(big))      # the list is used again: a * b
             ol = 2 * n - 1 if n == 1 else 2 * n
             checks = [{'op': 'mul', 'a': A.le(a0, big), 'b': A.le(a0, big), 'out': A.le(r1, big), 'outlen': ol},
                       {'op': 'mul', 'a': A.le(a0, big), 'b': A.le(b0, big), 'out': A.le(r2, big), 'outlen': ol}]
@@ -169,7 +173,7 @@ def record(src):
     try:
       with multrace.traced(events):
         if src['gen'] and not src.get('host'):
-            c = ar.generate_square(n, type=ar.SquareMode[mode], big_endian=big)
+            c = ar.generate_square(n, type=ar.SquareMode[mode], **A.bkw(big))
             pre = {'g': {l: {'t': 'INPUT', 'o': []} for l in c.inputs}, 'ord': list(c.inputs), 'i': list(c.inputs), 'o': [], 'u': {}, 'b': {}}
             a = list(c.inputs)
             res = list(c.outputs)
@@ -179,7 +183,7 @@ def record(src):
             pre = project(c)
             a = ops
             fn = ar.add_square if mode == 'DEFAULT' else ar.add_square_pow2_m1
-            res = fn(c, list(a), big_endian=big)
+            res = fn(c, list(a), **A.bkw(big))
             mode_out = 'same'
       checks = [{'op': 'mul', 'a': A.le(a, big), 'b': A.le(a, big), 'out': A.le(res, big), 'outlen': outlen}]
       # squarers that do not split (the split goes through Karatsuba, whose subtraction the ledger does not know)
